@@ -193,7 +193,8 @@ static void gen_constructor(plan_t *p, rng_t *r, int slot, int isnew, int hard, 
             if (ln < nlines - 1 || rng_chance(r, 2, 3)) buf[tot++] = '\n';
         }
         if (rng_chance(r, 1, 10)) { tot = 0; glen[slot] = 0; }        /* immediate EOF */
-        o = plan_op(p, 0, kind, 2, (long)slot, (long)nlines);
+        if (rng_chance(r, 1, 5)) o = plan_op(p, 0, kind, 3, (long)slot, (long)nlines, 1L);       /* a stream over a descriptor */
+        else o = plan_op(p, 0, kind, 2, (long)slot, (long)nlines);
         op_str(o, buf, tot);
         { int nf = rng_range(r, 0, 8); static const int lims[] = { 1, 2, 3, 100, 1000, 4094, 4095, 4096 };
           for (int i = 0; i < nf; i++) op_fault(o, rng_chance(r, 1, 3) ? FAULT(FC_READ, FO_FULL, 0) : FAULT(FC_READ, FO_SHORT, lims[rng_below(r, 8)]));
